@@ -146,14 +146,14 @@ struct ActorImpl* ActivityImpl__unregister_first_simcall(struct ActivityImpl* se
     __CPROVER_requires(__CPROVER_r_ok((struct ConditionVariableAcquisitionImpl*)self,
                                       sizeof(struct ConditionVariableAcquisitionImpl)) &&
                        IS_ACTOR(((struct ConditionVariableAcquisitionImpl*)self)->issuer_))
-    __CPROVER_assigns(g_unreg_calls, g_unreg_ret)
+    __CPROVER_assigns(g_unreg_calls, VF_PT(g_unreg_ret))
     __CPROVER_ensures(__CPROVER_return_value == (((struct ConditionVariableAcquisitionImpl*)self)->issuer_->vf_dying
                                                      ? NULL
                                                      : ((struct ConditionVariableAcquisitionImpl*)self)->issuer_) &&
                       g_unreg_ret == __CPROVER_return_value && g_unreg_calls == __CPROVER_old(g_unreg_calls) + 1);
 
 void ActorImpl__simcall_answer(struct ActorImpl* self)
-    __CPROVER_requires(IS_ACTOR(self)) __CPROVER_assigns(g_answered, g_answered_actor)
+    __CPROVER_requires(IS_ACTOR(self)) __CPROVER_assigns(g_answered, VF_PT(g_answered_actor))
     __CPROVER_ensures(g_answered == __CPROVER_old(g_answered) + 1 && g_answered_actor == self);
 
 /* ActivityImpl_T<> constructor: header default member initialisers (model_action_ = nullptr, no simcall) */
@@ -187,7 +187,7 @@ struct ConditionVariableObserver* vf_dyncast_SimcallObserver_to_ConditionVariabl
     __CPROVER_requires(1) __CPROVER_assigns()
     __CPROVER_ensures(__CPROVER_return_value == (struct ConditionVariableObserver*)p);
 void DelayedSimcallObserver_bool__set_result(struct DelayedSimcallObserver_bool* self, _Bool v)
-    __CPROVER_requires(1) __CPROVER_assigns(g_result_set, g_result_value, g_result_obs)
+    __CPROVER_requires(1) __CPROVER_assigns(g_result_set, g_result_value, VF_PT(g_result_obs))
     __CPROVER_ensures(g_result_set == __CPROVER_old(g_result_set) + 1 && g_result_value == v &&
                       g_result_obs == (void*)self);
 
@@ -195,7 +195,7 @@ void DelayedSimcallObserver_bool__set_result(struct DelayedSimcallObserver_bool*
  * unlock: only the owner releases (aborts otherwise); lock_async: a free mutex is taken at once, a held one is left to
  * its owner; MutexAcquisitionImpl::wait_for(-1): the waiter is answered only if it owns the mutex                   */
 void MutexImpl__unlock(struct MutexImpl* self, struct ActorImpl* issuer)
-    __CPROVER_requires(self == &g_m && IS_ACTOR(issuer)) __CPROVER_assigns(vf_exc, g_m.owner_, g_unlock_calls)
+    __CPROVER_requires(self == &g_m && IS_ACTOR(issuer)) __CPROVER_assigns(vf_exc, VF_PT(g_m.owner_), g_unlock_calls)
     __CPROVER_ensures((vf_exc == VF_EXC_ABORT) == (__CPROVER_old(g_m.owner_) != issuer))
     __CPROVER_ensures(vf_exc == 0 || vf_exc == VF_EXC_ABORT)
     __CPROVER_ensures(g_unlock_calls == __CPROVER_old(g_unlock_calls) + 1)
@@ -203,13 +203,13 @@ void MutexImpl__unlock(struct MutexImpl* self, struct ActorImpl* issuer)
     __CPROVER_ensures(g_m.owner_ == NULL || IS_ACTOR(g_m.owner_));
 struct MutexAcquisitionImpl* MutexImpl__lock_async(struct MutexImpl* self, struct ActorImpl* issuer)
     __CPROVER_requires(self == &g_m && IS_ACTOR(issuer) && (g_m.owner_ == NULL || IS_ACTOR(g_m.owner_)))
-    __CPROVER_assigns(g_m.owner_, g_lock_calls, g_lock_issuer)
+    __CPROVER_assigns(VF_PT(g_m.owner_), g_lock_calls, VF_PT(g_lock_issuer))
     __CPROVER_ensures(__CPROVER_return_value == &g_macq && g_lock_calls == __CPROVER_old(g_lock_calls) + 1 &&
                       g_lock_issuer == issuer)
     __CPROVER_ensures(g_m.owner_ == (__CPROVER_old(g_m.owner_) == NULL ? issuer : __CPROVER_old(g_m.owner_)));
 void MutexAcquisitionImpl__wait_for(struct MutexAcquisitionImpl* self, struct ActorImpl* issuer, double timeout)
     __CPROVER_requires(self == &g_macq && issuer == g_lock_issuer && timeout < 0.0 && g_m.owner_ != NULL)
-    __CPROVER_assigns(g_answered, g_answered_actor, g_mwait_calls)
+    __CPROVER_assigns(g_answered, VF_PT(g_answered_actor), g_mwait_calls)
     __CPROVER_ensures(g_mwait_calls == __CPROVER_old(g_mwait_calls) + 1)
     __CPROVER_ensures(g_answered == __CPROVER_old(g_answered) ||
                       (g_m.owner_ == issuer && g_answered == __CPROVER_old(g_answered) + 1 && g_answered_actor == issuer));
@@ -240,7 +240,7 @@ struct ConditionVariableAcquisitionImpl* ConditionVariableImpl__acquire_async(st
                        vf_exc == 0 && g_unlock_calls == 0)
     /* assumed from the s4u layer: the caller is not already blocked on this condition variable */
     __CPROVER_requires(ALLQ(NOT_MINE))
-    __CPROVER_assigns(vf_exc, g_m.owner_, g_unlock_calls, g_cv.ongoing_acquisitions_.n, __CPROVER_object_whole(g_qd))
+    __CPROVER_assigns(vf_exc, VF_PT(g_m.owner_), g_unlock_calls, g_cv.ongoing_acquisitions_.n, __CPROVER_object_whole(g_qd))
     __CPROVER_ensures((vf_exc == VF_EXC_ABORT) == (__CPROVER_old(g_m.owner_) != issuer))
     /*@ wait_requires_owning_the_mutex */
     __CPROVER_ensures(vf_exc == 0 || vf_exc == VF_EXC_ABORT)
@@ -292,10 +292,10 @@ void ConditionVariableAcquisitionImpl__cancel(struct ConditionVariableAcquisitio
 void ConditionVariableAcquisitionImpl__finish(struct ConditionVariableAcquisitionImpl* self)
     __CPROVER_requires(WF_CV && WF_ACTORS && ACQ_LIVE(self) && WAITER_OK(self) && vf_exc == 0 && g_result_set == 0 &&
                        COUNTERS_OK && (g_m.owner_ == NULL || IS_ACTOR(g_m.owner_)))
-    __CPROVER_assigns(vf_exc, g_answered, g_answered_actor, g_unrefs, g_unreg_calls, g_unreg_ret,
-                      ACT(self).model_action_, ACT(self).state_, g_m.owner_, g_lock_calls, g_lock_issuer, g_mwait_calls)
+    __CPROVER_assigns(vf_exc, g_answered, VF_PT(g_answered_actor), g_unrefs, g_unreg_calls, VF_PT(g_unreg_ret),
+                      VF_PT(ACT(self).model_action_), ACT(self).state_, VF_PT(g_m.owner_), g_lock_calls, VF_PT(g_lock_issuer), g_mwait_calls)
     __CPROVER_assigns(TO_PRE(self) : g_cv.ongoing_acquisitions_.n, __CPROVER_object_whole(g_qd),
-                      __CPROVER_object_whole(g_actv), ACTV_NS, g_result_set, g_result_value, g_result_obs)
+                      __CPROVER_object_whole(g_actv), ACTV_NS, g_result_set, g_result_value, VF_PT(g_result_obs))
     __CPROVER_ensures((vf_exc == VF_EXC_ABORT) == (SIMCALLS_N(self) != 1)) /*@ finish_needs_exactly_one_waiter */
     __CPROVER_ensures(vf_exc == 0 || vf_exc == VF_EXC_ABORT)
     __CPROVER_ensures(g_result_set == (TIMED_OUT(self) ? 1 : 0) &&
@@ -339,9 +339,9 @@ void ConditionVariableImpl__signal(struct ConditionVariableImpl* self)
                        ALLQ(LINK) && WAITERS_OK && (g_m.owner_ == NULL || IS_ACTOR(g_m.owner_)))
     __CPROVER_assigns(Qn > 0 : vf_exc, g_cv.ongoing_acquisitions_.h, g_cv.ongoing_acquisitions_.n,
                       g_acq[g_cv.ongoing_acquisitions_.h].granted_,
-                      ACT(&g_acq[g_cv.ongoing_acquisitions_.h]).model_action_,
-                      ACT(&g_acq[g_cv.ongoing_acquisitions_.h]).state_, g_answered, g_answered_actor, g_unrefs, g_unreg_calls,
-                      g_unreg_ret, g_m.owner_, g_lock_calls, g_lock_issuer, g_mwait_calls)
+                      VF_PT(ACT(&g_acq[g_cv.ongoing_acquisitions_.h]).model_action_),
+                      ACT(&g_acq[g_cv.ongoing_acquisitions_.h]).state_, g_answered, VF_PT(g_answered_actor), g_unrefs, g_unreg_calls,
+                      VF_PT(g_unreg_ret), VF_PT(g_m.owner_), g_lock_calls, VF_PT(g_lock_issuer), g_mwait_calls)
     __CPROVER_ensures(vf_exc == 0)
     __CPROVER_ensures(oldQn == 0 || (g_acq[oldQh].granted_ && Qh == oldQh + 1 && Qn == oldQn - 1))
     /*@ signal_notifies_head_of_queue */
@@ -370,8 +370,8 @@ void ConditionVariableImpl__broadcast(struct ConditionVariableImpl* self)
                        g_unreg_calls == 0 && g_unrefs == 0 && g_lock_calls == 0 && g_mwait_calls == 0 && ALLQ(LINK) &&
                        WAITERS_OK && (g_m.owner_ == NULL || IS_ACTOR(g_m.owner_)))
     __CPROVER_assigns(vf_exc, g_cv.ongoing_acquisitions_.h, g_cv.ongoing_acquisitions_.n, __CPROVER_object_whole(g_acq),
-                      g_answered, g_answered_actor, g_unrefs, g_unreg_calls, g_unreg_ret, g_m.owner_, g_lock_calls,
-                      g_lock_issuer, g_mwait_calls)
+                      g_answered, VF_PT(g_answered_actor), g_unrefs, g_unreg_calls, VF_PT(g_unreg_ret), VF_PT(g_m.owner_), g_lock_calls,
+                      VF_PT(g_lock_issuer), g_mwait_calls)
     __CPROVER_ensures(vf_exc == 0)
     __CPROVER_ensures(Qn == 0 && Qh == oldQh + oldQn) /*@ broadcast_empties_the_queue */
     __CPROVER_ensures(!(oldQh <= gj && gj < oldQh + oldQn) || g_acq[gj].granted_) /*@ broadcast_notifies_every_waiter */
@@ -410,14 +410,14 @@ void ConditionVariableAcquisitionImpl__wait_for(struct ConditionVariableAcquisit
                        SIMCALLS_N(self) == 0 && ACT(self).model_action_ == NULL && g_unreg_calls == 0 &&
                        g_unrefs == 0 && g_lock_calls == 0 && g_mwait_calls == 0 &&
                        (g_m.owner_ == NULL || IS_ACTOR(g_m.owner_)))
-    __CPROVER_assigns(vf_exc, g_answered, g_answered_actor, g_unrefs, g_unreg_calls, g_unreg_ret,
-                      ACT(self).model_action_, ACT(self).state_, g_m.owner_, g_lock_calls, g_lock_issuer, g_mwait_calls,
-                      g_registered, SIMCALLS_N(self), g_sleeps, g_sleep_duration, g_timer.__b_Action.activity_,
+    __CPROVER_assigns(vf_exc, g_answered, VF_PT(g_answered_actor), g_unrefs, g_unreg_calls, VF_PT(g_unreg_ret),
+                      VF_PT(ACT(self).model_action_), ACT(self).state_, VF_PT(g_m.owner_), g_lock_calls, VF_PT(g_lock_issuer), g_mwait_calls,
+                      g_registered, SIMCALLS_N(self), g_sleeps, g_sleep_duration, VF_PT(g_timer.__b_Action.activity_),
                       self->mc_timeout_)
     /* (>= 0: also right once the zero-timeout finding is repaired by `timeout >= 0` in the code) */
     __CPROVER_assigns(!self->granted_ && timeout >= 0.0 && MC_ON : g_cv.ongoing_acquisitions_.n,
                       __CPROVER_object_whole(g_qd), __CPROVER_object_whole(g_actv), ACTV_NS, g_result_set,
-                      g_result_value, g_result_obs)
+                      g_result_value, VF_PT(g_result_obs))
     __CPROVER_ensures((vf_exc == VF_EXC_ABORT) == (!__CPROVER_isfinited(timeout) || issuer != self->issuer_))
     /*@ wait_for_rejects_misuse */
     __CPROVER_ensures(vf_exc == 0 || vf_exc == VF_EXC_ABORT)
